@@ -1,4 +1,5 @@
 import RF.Lemmas.Lists
+import RF.Lemmas.ListsRc
 import RF.Model.ListsItemize
 import RF.Model.ListsStructLit
 /-!
@@ -758,5 +759,20 @@ theorem extractPreComment_sameLine_ends_block (pre : List Char) (c : Option (Lis
   split at h
   · rename_i he; exact he
   · split at h <;> simp at h
+
+/-! ## Under the default comment options the hypothesis about the rewriter is discharged -/
+
+/-- **`write_list` with the default comment options.**  With `rewriteCommentLight` — the model of
+`rewrite_comment` for `normalize_comments = wrap_comments = false`, compared with the real function by
+`lists.rc` — in the place of `rc`, the non-blank characters of the result are exactly `contentSpec`: every
+item string and every comment of a written item, each once, in order, plus the separators the
+specification demands, and nothing else.  No hypothesis is left. -/
+theorem writeList_content_default (f : ListFormatting) (items : List ListItem) (out : List Char)
+    (h : writeList f (rewriteCommentLight f.config) items = some out) :
+    squeeze out = contentSpec f items :=
+  writeList_content f _ items out (RF.Lemmas.ListsRc.rewriteCommentLight_content f.config) h
+
+example : writeList exFmt (rewriteCommentLight exFmt.config) exItems =
+    some "/* p */ a, // q\n    bb, /* r */".toList := by decide
 
 end RF.Props.Lists
